@@ -42,7 +42,19 @@ def ratio(x):
     return 1 / x > 0.5        # ZeroDivisionError on 0, TypeError on non-numbers: any exception of a predicate is a rejection
 
 
-PREDS = {'pos': pos, 'boom': boom, 'ratio': ratio}
+import functools
+import operator
+
+# callables that have no __name__ (a partial object, a callable instance)
+PARTIAL_GT3 = functools.partial(operator.lt, 3)          # x -> 3 < x
+
+
+class IsShort:
+    def __call__(self, x):
+        return len(x) < 3                                 # TypeError for numbers: a rejection like any other exception
+
+
+PREDS = {'pos': pos, 'boom': boom, 'ratio': ratio, 'partial-gt3': PARTIAL_GT3, 'callable-object': IsShort()}
 
 # ------------------------------------------------------------------ targets
 
@@ -50,6 +62,8 @@ def bt(t):
     k = t[0]
     if k == 'f' and t[1] == 'nan':
         return float('nan')
+    if k == 'b':
+        return t[1].encode('ascii')
     if k in ('i', 's', 'f'):
         return t[1]
     if k == 'n':
@@ -89,6 +103,8 @@ def bp(p):
         return TYPES[p[1]]
     if k == 'regex':
         return Regex(p[1])
+    if k == 'regex-bytes':
+        return Regex(p[1].encode('ascii'))
     if k == 'pred':
         return PREDS[p[1]]
     if k == 'M':
@@ -165,6 +181,11 @@ def ref(p, t):
     if k == 'regex':
         import re
         if type(t) not in (str, bytes) or (type(t) is bytes) or not re.fullmatch(p[1], t):
+            raise Fail('other')
+        return t
+    if k == 'regex-bytes':
+        import re
+        if type(t) is not bytes or not re.fullmatch(p[1].encode('ascii'), t):
             raise Fail('other')
         return t
     if k == 'pred':
@@ -284,6 +305,8 @@ def wit(p, alt=0):
                 'list': ['l', []], 'float': ['f', 1.5]}[p[1]]
     if k == 'regex':
         return ['s', 'aa' if alt else 'a']
+    if k == 'regex-bytes':
+        return ['b', 'aa' if alt else 'a']
     if k == 'pred':
         return ['i', 2 + alt]
     if k == 'M':
@@ -331,8 +354,12 @@ def mutations(t):
     """every one-edit mutation of a target term"""
     k = t[0]
     out = []
+    if k == 'b':
+        return [['s', t[1]], ['b', t[1] + 'b'], ['b', ''], ['i', 1]]          # the same text as str: a Regex built from bytes must REJECT it
     if k in 'isnf':
         out.append(OTHER_LEAF[k])
+        if k == 's':
+            out.append(['b', t[1]])                                            # the same text as bytes
         if k == 'i':
             out += [['i', -t[1]], ['i', 0], ['f', float(t[1])]]
         if k == 's':
@@ -370,7 +397,7 @@ def mutations(t):
 
 
 UNRELATED = [['i', 1], ['s', 'a'], ['n'], ['l', []], ['d', []], ['t', []], ['l', [['i', 1]]], ['d', [[['s', 'k'], ['i', 1]]]],
-             ['t', [['i', 1], ['s', 'a']]], ['S', [['i', 1]]], ['f', 2.5], ['S', []], ['F', [['s', 'a']]], ['i', -3], ['s', 'aaa'], ['f', 'nan'], ['i', 0]]
+             ['t', [['i', 1], ['s', 'a']]], ['S', [['i', 1]]], ['f', 2.5], ['S', []], ['F', [['s', 'a']]], ['i', -3], ['s', 'aaa'], ['f', 'nan'], ['i', 0], ['b', 'aa'], ['b', 'zz']]
 
 
 def targets_for(p):
@@ -474,7 +501,7 @@ def run_case(case):
 # ------------------------------------------------------------------ pattern generator
 
 LEAVES = [['lit', 1], ['lit', 'a'], ['lit', None], ['type', 'int'], ['type', 'str'], ['type', 'object'],
-          ['regex', 'a+'], ['pred', 'pos'], ['pred', 'boom'], ['pred', 'ratio'], ['M', '>', 0], ['M', '==', 'a'], ['M', '>=', 0], ['M', '<=', 0.5], ['M', '!=', 'a'],
+          ['regex', 'a+'], ['pred', 'pos'], ['pred', 'boom'], ['pred', 'ratio'], ['pred', 'partial-gt3'], ['pred', 'callable-object'], ['regex-bytes', 'a+'], ['M', '>', 0], ['M', '==', 'a'], ['M', '>=', 0], ['M', '<=', 0.5], ['M', '!=', 'a'],
           ['and', [['type', 'int'], ['M', '>', 0]]], ['or', [['type', 'int'], ['type', 'str']]], ['or', [['lit', 1], ['lit', 'a']]],
           ['not', ['type', 'str']], ['not', ['lit', 1]]]
 HASHABLE_KEYS = [['lit', 'k'], ['lit', 1], ['type', 'str'], ['type', 'int'], ['type', 'object'], ['regex', 'k+'],
@@ -482,7 +509,7 @@ HASHABLE_KEYS = [['lit', 'k'], ['lit', 1], ['type', 'str'], ['type', 'int'], ['t
 
 
 def hashable(p):
-    return p[0] in ('lit', 'type', 'regex', 'pred', 'and', 'or', 'not') or (p[0] in ('tuple', 'fset') and all(hashable(x) for x in p[1]))
+    return p[0] in ('lit', 'type', 'regex', 'regex-bytes', 'pred', 'and', 'or', 'not') or (p[0] in ('tuple', 'fset') and all(hashable(x) for x in p[1]))
 
 
 def containers(kids, wide):
